@@ -26,7 +26,7 @@ THEOREMS = {
         "Dawgs.C06.Sites.define_only_constants",
         "Dawgs.C06.Sites.alias_key_fallback_sites_known",
         "Dawgs.C06.Sites.alias_key_nonuser_are_fallbacks",
-        "Dawgs.C06.Sites.c06_sites_full_refuted",
+        "Dawgs.C06.Sites.fallback_sites_bounded",
     ],
 }
 
